@@ -113,7 +113,7 @@ func genSQL(r *fw.Rand, dialect string, thorough bool) *sqlDoc {
 	g := &sqlGen{r: r, d: d, spice: map[string]bool{}}
 	g.con("dialect-" + dialect)
 	if r.Chance(1, 3) {
-		d.Spice = r.Pick([]string{"array-not-null", "backquoted-native-name"})
+		d.Spice = r.Pick([]string{"array-not-null", "backquoted-native-name", "renamed-column-max-length"})
 		g.spice[d.Spice] = true
 		g.con("spice-" + d.Spice)
 	}
@@ -221,6 +221,18 @@ func genSQL(r *fw.Rand, dialect string, thorough bool) *sqlDoc {
 		for ci, nc := 0, 1+r.Intn(6); ci < nc; ci++ {
 			n, q := colName()
 			c := &sqlCol{Name: n, Quoted: q, T: g.colType(false), NotNull: r.Chance(2, 5)}
+			if _, renamed := sqlFieldKey(n); renamed {
+				if g.spice["renamed-column-max-length"] && dialect == "spannerSQL" {
+					c.T = sqlType{r.Pick([]string{"STRING(MAX)", "BYTES(MAX)"}), "STRING", 0}
+					if strings.HasPrefix(c.T.Spell, "BYTES") {
+						c.T.Prim = "BYTES"
+					}
+					g.con("renamed-column-with-max-length")
+				}
+				for !g.spice["renamed-column-max-length"] && strings.Contains(c.T.Spell, "MAX") {
+					c.T = g.colType(false)
+				}
+			}
 			if c.NotNull {
 				g.con("not-null")
 			} else {
